@@ -139,7 +139,9 @@ func (p *provProfile) Run(s *Sim) {
 	defer func() { provscheduling.VerifParallelize = nil }()
 
 	p.zones = []string{"zone-a", "zone-b", "zone-c"}[:1+ch.Pick("prov.zones", 3)]
-	p.e.CP.Catalog = GenCatalog(ch, CatalogSpec{Types: 3 + ch.Pick("prov.types", 10), Zones: p.zones, Spot: true, GPU: ch.Pick("prov.gpu", 3) == 0, Arm: ch.Pick("prov.arm", 3) == 0, Ties: true})
+	// capacity reservations (a handful of instances at a price near zero that run out) only in the disruption runs
+	reserved := p.disrupt && ch.Pick("dis.reserved", 3) == 0
+	p.e.CP.Catalog = GenCatalog(ch, CatalogSpec{Types: 3 + ch.Pick("prov.types", 10), Zones: p.zones, Spot: true, Reserved: reserved, GPU: ch.Pick("prov.gpu", 3) == 0, Arm: ch.Pick("prov.arm", 3) == 0, Ties: true})
 	p.e.CP.WorstBias = []int{50, 100, 0}[ch.Pick("prov.worst", 3)]
 	p.k = NewKubelet(p.e)
 	p.k.RegDelayMax = 90 * time.Second
@@ -808,7 +810,9 @@ func (p *provProfile) onWrite(ev WatchEvent, old client.Object, by *Task) {
 			pi.created[ev.Obj.GetName()] = ev.Obj.(*v1.NodeClaim)
 		}
 		// C15: the NodePool template the creating task built this NodeClaim from (its last NodePool list)
-		if np := lastNodePoolRead(by, ev.Obj.GetLabels()[v1.NodePoolLabelKey], true); np != nil {
+		// (a task that listed NodePools several times - a disruption pass with its validation - and saw different
+		// templates does not tell which one the NodeClaim was built from: not recorded)
+		if np := lastNodePoolRead(by, ev.Obj.GetLabels()[v1.NodePoolLabelKey], true); np != nil && sameTemplateInAllLists(by, np) {
 			p.ncTemplate[ev.Obj.GetName()] = templateJSON(np)
 		}
 	}
@@ -1077,8 +1081,19 @@ func (p *provProfile) checkPass(pi *passInfo) {
 			}
 			s.Probe("c01-new-type-checked")
 			ofs := permittedOfferings(nc, it)
+			if len(ofs) == 0 && ncAllows(nc, v1.CapacityTypeLabelKey, v1.CapacityTypeReserved) && !ncAllows(nc, v1.CapacityTypeLabelKey, v1.CapacityTypeOnDemand) && !ncAllows(nc, v1.CapacityTypeLabelKey, v1.CapacityTypeSpot) {
+				// a NodeClaim pinned to a capacity reservation keeps the other instance types of its options in the list;
+				// the provider cannot launch those (no offering matches the reservation), so they are not "types it may be
+				// launched as"
+				s.Probe("c01-reserved-pinned-type-skipped")
+				continue
+			}
 			if len(ofs) == 0 {
-				s.Violate("C01", "new-nodeclaim-type-without-offering", "NodeClaim %s names instance type %s, which has no available offering compatible with the written requirements", name, it.Name)
+				var ofs []string
+				for _, of := range it.Offerings {
+					ofs = append(ofs, fmt.Sprintf("%s/%s/%s avail=%v", of.Zone(), of.CapacityType(), of.ReservationID(), of.Available))
+				}
+				s.Violate("C01", "new-nodeclaim-type-without-offering", "NodeClaim %s names instance type %s, which has no available offering compatible with the written requirements %v (offerings: %v)", name, it.Name, nc.Spec.Requirements, ofs)
 				return
 			}
 			var lastWhy string
@@ -1801,6 +1816,21 @@ func lastNodePoolRead(t *Task, pool string, list bool) *v1.NodePool {
 		}
 	}
 	return nil
+}
+
+func sameTemplateInAllLists(t *Task, np *v1.NodePool) bool {
+	want := templateJSON(np)
+	for _, r := range t.Reads {
+		if r.Kind != "NodePool" || r.Err != nil {
+			continue
+		}
+		for _, o := range r.Objs {
+			if x, ok := o.(*v1.NodePool); ok && x.Name == np.Name && templateJSON(x) != want {
+				return false
+			}
+		}
+	}
+	return true
 }
 
 func templateJSON(np *v1.NodePool) string {
